@@ -16,7 +16,7 @@ RULE = ("case = scope forest of <=5 scopes (sync/async blocks, sync/async/no com
         "be left, and may have completed, before the child is constructed or left); quick: corpus + every linearisation of every "
         "forest shape x task placement with <=3 scopes + 6 random linearisations per shape with 4 + ~6500 sampled event sequences "
         "(a quarter from the degenerate stream: held scope objects entered late or never); thorough: every linearisation with <=4 "
-        "scopes, 30 random linearisations for each of the 1944 shape x placement combinations with 5 scopes, 40000 sampled "
+        "scopes, 80 random linearisations for each of the 1944 shape x placement combinations with 5 scopes, 80000 sampled "
         "sequences; non-trivial = >=2 scopes with "
         "callbacks, >=1 nesting edge, and some scope left before a scope nested in it was left or constructed; distinct = by case text")
 TRUSTED = ["asyncio Future done-callbacks / run_coroutine_threadsafe deliver by quiescence (harness/vloop.py)",
@@ -294,8 +294,8 @@ def generate(rng, tier):
                 yield c
     else:
         yield from enumerate_shapes(4)
-        yield from sample_shapes(rng, 5, 30)
-        for _ in range(16 * 2500):
+        yield from sample_shapes(rng, 5, 80)
+        for _ in range(16 * 5000):
             c = sample(rng, rng.randint(2, 5), rng.random() < 0.25)
             if c:
                 yield c
